@@ -11,8 +11,7 @@ Definition fline : Type := line (T:=float).
 
 Definition err_eqb (a b : err) : bool :=
   match a, b with
-  | EZeroDiv, EZeroDiv | ELattice, ELattice | EAssert, EAssert | ELoop, ELoop | EStop, EStop
-  | EIndex, EIndex => true
+  | EZeroDiv, EZeroDiv | ELattice, ELattice | EAssert, EAssert | ELoop, ELoop | EStop, EStop => true
   | _, _ => false
   end.
 
